@@ -415,7 +415,7 @@ def check_c03(tier, seed):
     ck = Check('C03', tier, seed)
     P = Programs()
     base_cov(ck, P)
-    cfgs = [(2, 2)] if tier == 'quick' else [(2, 2), (3, 2), (2, 3), (4, 2)]
+    cfgs = [(2, 2)] if tier == 'quick' else [(2, 2), (3, 2), (2, 3), (4, 2), (3, 3)]
     tasks = []
     for N, M in cfgs:
         R = 2 * N + 1
